@@ -1,5 +1,7 @@
 import GodiProofs.Container.History
 import GodiProofs.Container.Cascade
+import GodiProofs.Container.TreeBuild
+import GodiProofs.Container.HypSound
 /-!
 # C13 — Closed means closed (sequential clauses)
 
@@ -78,5 +80,57 @@ theorem closing_all_disposes_all (beh : Beh) (order : List Nat → List Nat) (l 
     (hf : l.length + 1 ≤ fuel) (c : Nat) (hc : c ∈ l) :
     (((closeChildren beh order fuel st l).1).scope c).disposed = true :=
   closeChildren_disposes_all beh order l fuel st hf c hc
+
+/-! ### the whole subtree, over histories (`Container/Tree.lean`, `TreeOps.lean`, `TreeBuild.lean`) -/
+
+/-- the forest invariant holds after every history that starts from a successful Build -/
+theorem forest_invariant_over_histories (beh : Beh) (descs : List Desc) (order : List Nat) (ops : List Op)
+    (hyp : failedHyps descs = []) (hok : (buildRuntime beh descs order).2 = .ok ())
+    (hv : ValidHistT beh (buildRuntime beh descs order).1 ops) :
+    Tree (run beh (buildRuntime beh descs order).1 ops) := by
+  obtain ⟨wf, rw', is, idist, _⟩ := hyps_of_check hyp
+  obtain ⟨_, hsucc, _⟩ := build_ledger beh descs order wf rw' is idist
+  obtain ⟨_, _, hdescs, hinit, _⟩ := hsucc hok
+  have hb : buildRuntime beh descs order = ((buildRuntime beh descs order).1, .ok ()) := by
+    cases h : buildRuntime beh descs order with
+    | mk a b => rw [h] at hok; simp only at hok; subst hok; rfl
+  obtain ⟨t0, h0⟩ := tree_buildRuntime beh descs order _ hb
+  exact tree_run beh ops _ (by rw [hdescs]; exact wf) hinit t0 h0 hv
+
+/-- CLOSED MEANS CLOSED, ALL THE WAY DOWN: at every point of every history, a closed scope has no open
+descendant — however deep, whoever closed it (its own `Close`, an ancestor's, a failed creation) -/
+theorem closed_scope_has_no_open_descendant (beh : Beh) (descs : List Desc) (order : List Nat) (ops : List Op)
+    (hyp : failedHyps descs = []) (hok : (buildRuntime beh descs order).2 = .ok ())
+    (hv : ValidHistT beh (buildRuntime beh descs order).1 ops) (s x : Nat) :
+    let st := run beh (buildRuntime beh descs order).1 ops
+    (st.scope s).disposed = true → x < st.nscopes → Below st s x → (st.scope x).disposed = true := by
+  intro st hs hx hb
+  exact closed_has_no_open_descendant (forest_invariant_over_histories beh descs order ops hyp hok hv) s hs x hx hb
+
+/-- CASCADE, WHOLE SUBTREE: after any history, `Close` of any scope — ranging over the child tables in any
+order — leaves that scope and every descendant closed (with the fuel the model runs on: the recursion reaches
+all of them), and the invariant holds again -/
+theorem close_reaches_every_descendant (beh : Beh) (descs : List Desc) (order : List Nat) (ops : List Op)
+    (hyp : failedHyps descs = []) (hok : (buildRuntime beh descs order).2 = .ok ())
+    (hv : ValidHistT beh (buildRuntime beh descs order).1 ops)
+    (corder : List Nat → List Nat) (hperm : ∀ l, (corder l).Perm l) (s : Nat) :
+    let st := run beh (buildRuntime beh descs order).1 ops
+    s < st.nscopes →
+    let st' := (closeScope beh corder (closeFuel st) st s).1
+    (st'.scope s).disposed = true ∧ ∀ x, x < st.nscopes → Below st s x → (st'.scope x).disposed = true := by
+  intro st hs st'
+  have t := forest_invariant_over_histories beh descs order ops hyp hok hv
+  obtain ⟨_, h2, h3⟩ := close_whole_subtree beh corder hperm st t s hs (closeFuel st) (closeFuel_ge st s)
+  exact ⟨h2, fun x hx hb => (h3 x hx hb).1⟩
+
+/-! non-vacuity: root ← s1 ← s2 ← s3; closing s1 closes s2 and s3 -/
+example :
+    let st0 := (buildRuntime {} [] []).1
+    let st1 := (providerCreateScope {} st0 0).1
+    let st2 := (scopeCreateScope {} st1 1 0).1
+    let st3 := (scopeCreateScope {} st2 2 0).1
+    let st4 := (closeScope {} id (closeFuel st3) st3 1).1
+    ((st4.scope 1).disposed, (st4.scope 2).disposed, (st4.scope 3).disposed, st4.provScopes) = (true, true, true, some []) := by
+  decide
 
 end Godi.Props.C13
